@@ -82,7 +82,7 @@ def run_case(ctx, case: Case, oracles=(), model=None, use_model=True, remount_ev
             check_remount(ctx, case, ir, i, enc)
         # the program closes the filesystem itself with its next op: what pyfatfs reports is taken now, for the comparison with the
         # independent reader of the closed image
-        if ("interop" in oracles) and i + 1 < len(case.ops) and case.ops[i + 1][0] == "closefs" and not handles_open and ir.fs is not None and k != "closefs":
+        if ("interop" in oracles or "remount" in oracles) and i + 1 < len(case.ops) and case.ops[i + 1][0] == "closefs" and not handles_open and ir.fs is not None and k != "closefs":
             try:
                 state["final_live"] = live_walk(ir)
             except Exception as e:  # noqa
@@ -116,6 +116,28 @@ def run_case(ctx, case: Case, oracles=(), model=None, use_model=True, remount_ev
             except Exception as e:  # noqa
                 ctx.violation(f"{case.label}: close() raised {type(e).__name__}: {e}", "close-raises", case.replay())
     img = ir.dev.volume()
+    # "... or after close()": the closed image, mounted afresh, shows the tree the live object reported before closing (programs that close the
+    # filesystem themselves; C03-m7)
+    if "remount" in oracles and closed and state.get("final_live") is not None:
+        lw, linfo = state["final_live"]
+        for lazy in (True, False):
+            try:
+                rw, rinfo = remount_walk(img, 0, enc, lazy)
+            except Exception as e:  # noqa
+                ctx.violation(f"{case.label}: remount ({'lazy' if lazy else 'eager'}) of the closed image raised {type(e).__name__}: {e}",
+                              f"remount-raises:{type(e).__name__}", dict(case.replay(), at="closed"))
+                break
+            d = diff_trees(lw, rw)
+            if d:
+                ctx.violation(f"{case.label}: the closed image, mounted again, differs from the last live tree: {d[0]}",
+                              "remount-differs:" + ("only-live" if "only in live" in d[0] else "only-remount" if "only in remount" in d[0] else "content"),
+                              dict(case.replay(), at="closed", diffs=d[:10]))
+                break
+            bad = [p for p in lw if linfo[p] != rinfo.get(p)]
+            if bad:
+                ctx.violation(f"{case.label}: closed image: timestamps of {bad[0]!r} live {linfo[bad[0]]} vs remount {rinfo.get(bad[0])}", "remount-times",
+                              dict(case.replay(), at="closed"))
+                break
     if "io_bounds" in oracles:
         d = ir.dev
         if d.outside:
